@@ -187,7 +187,8 @@ def c09(bb, ctx):
         if len({where.get(i) for i in c}) > 1:
             # size-ties: any n clusters of the n largest sizes may have been chosen
             if op["op"] == "refine" and op["n_largest"] > 0:
-                nth = len(before[min(op["n_largest"], len(before)) - 1])
+                # (sizes sorted here: the order in which the estimator lists its clusters is not trusted)
+                nth = sorted((len(b) for b in before), reverse=True)[min(op["n_largest"], len(before)) - 1]
                 broken = [b for b in before if len({where.get(i) for i in b}) > 1]
                 if len(broken) <= op["n_largest"] and all(len(b) >= nth for b in broken):
                     continue
